@@ -9,6 +9,7 @@ from helpers import (arm, branches_on_call, enum_switches, edge_region, must_pas
 import entrypoints
 import gating
 import panics
+from props import c05
 
 EXPLANATION = (
     'Static decision of the structural conditions for totality of slicec (lib+bin) on its MIR: (1) panic-site ledger: every '
@@ -279,6 +280,11 @@ def run(ctx):
     prog = ctx.prog
     ctx.run_rule('C01.1', 'T7', 'panic-site ledger over everything reachable in slicec lib+bin', r_panic_ledger, prog)
     ctx.run_rule('C01.2', 'T8', 'recursion ledger: every reachable SCC has a termination argument', r_recursion_ledger, prog)
+    # the termination arguments of the recursion ledger that are themselves structural are armed here as well
+    ctx.run_rule('C01.2b', 'T2', 'recursive validators run only after cycles were rejected (argument of SCCs dictionary_key, all_base_interfaces)', c05.r_cycles_first, prog)
+    ctx.run_rule('C01.2c', 'T8', 'cycle detector recursion guard (argument of SCC cycle_detector)', c05.r_recursion_guard, prog)
+    ctx.run_rule('C01.2d', 'T8', 'inheritance loops rejected before the base closure is computed; guarded search (SCCs all_base_interfaces, inheritance_search)', c05.r_inheritance, prog)
+    ctx.run_rule('C01.3d', 'T9', 'alias chain loop: membership exit and growing chain (loop ledger variant)', c05.r_alias_loop, prog)
     ctx.run_rule('C01.3a', 'T9', 'every loop consumes on every path round it, or is in the loop ledger with its progress calls', r_loops, prog)
     ctx.run_rule('C01.3b', 'T9', 'lexers: no token at end of buffer without a state change', r_lexer_eof_state, prog)
     ctx.run_rule('C01.3c', 'T9', 'token functions yield "nothing" only after consuming input', r_lexer_none_paths, prog)
